@@ -4,3 +4,4 @@ import YardlProofs.WirePrefix
 import YardlProofs.StreamsW
 import YardlProofs.StreamsR
 import YardlProofs.Batch
+import YardlProofs.Imports
